@@ -10,7 +10,7 @@ from typing import Any, Dict, List, Optional, Set, Tuple
 
 from ..dofsym import (ENT, KINDS, EmptyBlock, Gather, NumBlock, run_dofs)
 from ..elements import load_elements, load_refdoms
-from ..interp import (Arr, Interp, ModRef, Obj, PyFunc, Raised,
+from ..interp import (Arr, ClassRef, Interp, ModRef, Obj, PyFunc, Raised,
                       Unsupported)
 from ..model import AnalysisError, FuncInfo, Model, src, walk_no_nested
 from ..poly import Poly
@@ -707,6 +707,80 @@ def _r6(model, rep, dofs_order):
                          fn.lineno)
 
 
+def _r7(model, rep):
+    """Every basis numbers its DOFs with a Dofs object built for *its own*
+    mesh and element (or the one the caller supplies).  A numbering taken
+    from somewhere else (a cache on the mesh, another basis) is right only
+    while the element's DOF counts happen to agree - for an element that
+    declares other counts (the *DG variants of the mesh's own element) the
+    basis silently gets the continuous numbering.  Symbolic run of
+    AbstractBasis.__init__ with an element that IS an instance of the
+    mesh's element class."""
+    R7 = "C04-R7"
+    bcls = model.cls("skfem.assembly.basis.abstract_basis", "AbstractBasis")
+    ecls = model.cls("skfem.element.element", "Element")
+    fn = bcls.methods["__init__"]
+    made = []
+
+    def hook(interp, name, args, kwargs, node):
+        if name.endswith(".Dofs"):
+            o = Obj(None, {"element_dofs": _Shaped((3, Poly.sym("nt"))),
+                           "N": Poly.sym("N")})
+            made.append((o, list(args), dict(kwargs)))
+            return o
+        return NotImplemented
+
+    class _Shaped:
+        def __init__(self, shape):
+            self.shape = shape
+
+        def skv_getattr(self, name):
+            if name == "shape":
+                return self.shape
+            raise Unsupported("table." + name)
+    refdom = ClassRefdom = object()
+    for given in (False, True):
+        made.clear()
+        elem = Obj(ecls, {"refdom": "RD", "maxdeg": 1, "doflocs": None})
+        mesh_dofs = Obj(None, {"element_dofs": _Shaped((3, Poly.sym("nt"))),
+                               "N": Poly.sym("Nmesh")})
+        mesh = Obj(None, {"refdom": "RD", "elem": ClassRef(ecls),
+                          "dofs": mesh_dofs,
+                          "_mapping": PyFunc(lambda a, k, n: "MAP")})
+        supplied = Obj(None, {"element_dofs": _Shaped((3, Poly.sym("nt"))),
+                              "N": Poly.sym("Ngiven")})
+        obj = Obj(bcls, {})
+        kw = {"disable_doflocs": True, "quadrature": ("X", "W")}
+        if given:
+            kw["dofs"] = supplied
+        try:
+            Interp(model, call_hook=hook).call(fn, [mesh, elem], kw,
+                                               self_obj=obj)
+        except (Unsupported, Raised) as e:
+            raise AnalysisError(f"AbstractBasis.__init__: {e}")
+        got = obj.attrs.get("dofs")
+        cons = f"AbstractBasis.__init__:dofs[{'given' if given else 'default'}]"
+        if given:
+            ok = got is supplied and not made
+            want = "the Dofs object the caller supplied"
+        else:
+            ok = len(made) == 1 and got is made[0][0] and \
+                made[0][1][:2] == [mesh, elem]
+            want = "a new Dofs(mesh, elem) for this mesh and this element"
+        if ok:
+            rep.ok(R7, cons, f"the basis numbers its DOFs with {want}")
+        else:
+            src_ = "mesh.dofs" if got is mesh_dofs else repr(got)
+            rep.fail(R7, fn.path, "AbstractBasis.__init__", cons,
+                     f"the basis takes its numbering from {src_} instead of "
+                     f"{want}: an element that is an instance of the mesh's "
+                     f"element class but declares other DOF counts "
+                     f"(ElementTriP1DG on a MeshTri) gets the continuous "
+                     f"vertex numbering - N too small, DOFs shared between "
+                     f"cells that share no entity of the element",
+                     fn.lineno)
+
+
 def run(model: Model, rep, tier: str) -> None:
     rep.rule("C04-R1", "one entity-kind order per convention: local basis "
              "order and dofnames order, agreed by all readers and writers")
@@ -726,6 +800,9 @@ def run(model: Model, rep, tier: str) -> None:
     _r4(model, rep)
     _r5(model, rep)
     _r6(model, rep, tuple(order))
+    rep.rule("C04-R7", "a basis numbers its DOFs with a Dofs object built "
+             "for its own mesh and element, or the one supplied")
+    _r7(model, rep)
     rep.require_min("C04-R6", 10)
     rep.require_min("C04-R1", 10)
     rep.require_min("C04-R2", 40)
@@ -746,6 +823,13 @@ _FACET_BLK = """        if counts[2] > 0:
             ns += sum([tmp for j in range(int(counts[2] / len(tmp)))], [])
 """
 MUTANTS = [
+    ("basis reuses the mesh's cached numbering for instances of its "
+     "element class",
+     ("skfem/assembly/basis/abstract_basis.py",
+      "        self.dofs = Dofs(mesh, elem) if dofs is None else dofs\n",
+      "        if dofs is None:\n            dofs = (mesh.dofs if "
+      "isinstance(elem, mesh.elem)\n                    else Dofs(mesh, "
+      "elem))\n        self.dofs = dofs\n"), "C04-R7"),
     ("composite serves facet functions before edge functions",
      (_EC, _EDGE_BLK + _FACET_BLK, _FACET_BLK + _EDGE_BLK), "C04-R6"),
     ("composite component-local index sequence reversed",
